@@ -1390,7 +1390,13 @@ func (in *inliner) expandT(ce *ast.CallExpr, assign *ast.AssignStmt, tok token.T
 	blk := &ast.BlockStmt{Lbrace: ce.Pos(), List: []ast.Stmt{inner}, Rbrace: ce.End()}
 	out := append(pre, blk)
 	if th != nil {
-		// results were assigned and the consuming `if` was taken at every return site
+		// results were assigned and the consuming `if` was taken at every return site; the variable the `if` tested may
+		// have no other use left
+		for k, t := range resTmp {
+			if k < len(th.resNames) && th.resNames[k] != "" {
+				out = append(out, &ast.AssignStmt{Lhs: []ast.Expr{ast.NewIdent("_")}, Tok: token.ASSIGN, Rhs: []ast.Expr{in.ident(t)}})
+			}
+		}
 	} else if assign != nil {
 		var rs []ast.Expr
 		for _, t := range resTmp {
@@ -1519,7 +1525,11 @@ func rewriteReturnsD(n ast.Node, mk func(r *ast.ReturnStmt, isLast bool) []ast.S
 		case *ast.BlockStmt:
 			x.List = fix(x.List, false, false)
 		case *ast.IfStmt:
+			// a `return …, x` directly inside `if x != nil { … }` (x not assigned in between) returns a non-nil x:
+			// remembered for the branch threading (inline_thread.go)
+			retFacts = append(retFacts, retFact{cond: x.Cond, body: x.Body})
 			x.Body.List = fix(x.Body.List, false, false)
+			retFacts = retFacts[:len(retFacts)-1]
 			if x.Else != nil {
 				walkStmt(x.Else)
 			}
@@ -1540,7 +1550,9 @@ func rewriteReturnsD(n ast.Node, mk func(r *ast.ReturnStmt, isLast bool) []ast.S
 		case *ast.SelectStmt:
 			for _, cc := range x.Body.List {
 				c := cc.(*ast.CommClause)
+				retComms = append(retComms, c.Comm)
 				c.Body = fix(c.Body, false, false)
+				retComms = retComms[:len(retComms)-1]
 			}
 		case *ast.LabeledStmt:
 			walkStmt(x.Stmt)
@@ -1731,6 +1743,17 @@ func copyNode(n ast.Node, ren map[types.Object]string, info *types.Info) ast.Nod
 	v := copyValue(reflect.ValueOf(n), ren, info)
 	return v.Interface().(ast.Node)
 }
+
+// retFacts: the `if` conditions whose body the return statement currently being rewritten sits in (innermost last).
+type retFact struct {
+	cond ast.Expr
+	body *ast.BlockStmt
+}
+
+var retFacts []retFact
+
+// retComms: the communications of the select arms the return statement being rewritten sits in.
+var retComms []ast.Stmt
 
 // copyLabelSuffix, when set, is appended to every label (declaration and use) of the copy.
 var copyLabelSuffix string
